@@ -790,6 +790,28 @@ def step (w : Wiring) (s : AState) : Label → Option AState
   | .tChanEnd => s.stepChanEnd w
   | .tStreamEnd => s.stepStreamEndTau
 
+/-- what may happen to an actor in a phase in which its loop future has no suspension point -/
+def Phase.allows : Phase → Label → Bool
+  | .exiting _, l => l == .taskDone || l == .taskPanic           -- the loop returned: only the end of the task
+  | .rstStopped _, l =>                                           -- inside `refresh`, between `stopped` and `started`
+    (match l with
+     | .vnew _ | .cbBegin .started => true
+     | _ => false)
+  | _, _ => true
+
+/-- The loop's return (or failure) and the end of its task happen inside one poll of the task, and so do
+    `stopped`'s return and `started`'s begin during a restart: nothing else can happen to this actor in
+    between.  `gstep` is `step` with that guard; every guarded run is a run (`Proofs/Guarded.lean`), so
+    whatever is proved about all runs holds of all guarded runs, and the acceptor uses the guarded step. -/
+def gstep (w : Wiring) (s : AState) (l : Label) : Option AState :=
+  if s.phase.allows l then step w s l else none
+
+def grun (w : Wiring) (s : AState) : List Label → Option AState
+  | [] => some s
+  | l :: ls => match gstep w s l with
+    | some s' => grun w s' ls
+    | none => none
+
 /-- Run a label sequence from a state. -/
 def run (w : Wiring) (s : AState) : List Label → Option AState
   | [] => some s
